@@ -136,7 +136,7 @@ func body(c cfg) func() {
 			conf.MaxWriteBufferSize = 4
 		}
 		var ln *fakeListener
-		if c.origin == "accept" {
+		if c.origin == "accept" || c.origin == "accept-racing" {
 			ln = &fakeListener{}
 			conf.Network = "tcp"
 			conf.Addrs = []string{"127.0.0.1:80"}
@@ -180,6 +180,27 @@ func body(c cfg) func() {
 			conn, peer = ekit.Stream(false, 3, 64)
 			ln.q = append(ln.q, conn)
 			vsched.WaitIdle()
+		case "udp-dial":
+			// a datagram socket that reads for itself (what a dialed UDP connection handed to
+			// AddConn becomes), after one completed read round
+			var fd int
+			fd, up = vsys.NewUDPSocket(9001)
+			conn = nbio.VerifNewConn(fd, nbio.ConnTypeUDPClientFromDial, &net.UDPAddr{IP: net.IPv4(127, 0, 0, 1), Port: 9001}, &net.UDPAddr{IP: net.IPv4(10, 0, 0, 1), Port: 7001})
+			if _, err := g.AddConn(conn); err != nil {
+				vsched.Fail("harness|AddConn: %v", err)
+				return
+			}
+			up.Send(7001, []byte{1})
+			vsched.WaitIdle()
+		case "add-racing":
+			// the causes are raised while the registration is still going on (the open handler has
+			// a scheduling point inside)
+			conn, peer = ekit.Stream(false, 3, 64)
+			cc := conn
+			vsched.GoNamed("adder", func() { _, _ = g.AddConn(cc) })
+		case "accept-racing":
+			conn, peer = ekit.Stream(false, 3, 64)
+			ln.q = append(ln.q, conn)
 		case "udp":
 			var fd int
 			fd, up = vsys.NewUDPSocket(9000)
@@ -198,7 +219,8 @@ func body(c cfg) func() {
 				return
 			}
 		}
-		if len(w.opens[conn]) != 1 {
+		racing := strings.HasSuffix(c.origin, "-racing")
+		if len(w.opens[conn]) != 1 && !racing {
 			vsched.Fail("open-count|connection of origin %s got %d open notifications before any traffic", c.origin, len(w.opens[conn]))
 			return
 		}
@@ -277,6 +299,10 @@ func body(c cfg) func() {
 			if n := len(w.opens[cc]); n > 1 {
 				w.fails = append(w.fails, fmt.Sprintf("open-count|%s got %d open notifications", what, n))
 			}
+			if racing && len(w.opens[cc]) == 0 && len(w.closes[cc]) == 0 {
+				// the registration lost against the cause: never opened, nothing owed
+				return
+			}
 			if n := len(w.closes[cc]); n != 1 {
 				w.fails = append(w.fails, fmt.Sprintf("close-count %d|%s (origin %s, causes %v) got %d close notifications", n, what, c.origin, c.causes, n))
 			}
@@ -336,7 +362,7 @@ func body(c cfg) func() {
 			if _, err := conn.Writev([][]byte{{1}, {2}}); err == nil {
 				w.fails = append(w.fails, "op-after-close|Writev succeeded on a closed connection")
 			}
-			if c.origin != "udp" {
+			if c.origin != "udp" && c.origin != "udp-dial" {
 				if _, err := conn.Sendfile(ekit.OpenDataFile(1, 4, 0), 0); err == nil {
 					w.fails = append(w.fails, "op-after-close|Sendfile succeeded on a closed connection")
 				}
@@ -352,7 +378,7 @@ func body(c cfg) func() {
 			if n := len(vsys.BadFDCalls()); n > before || vsys.GetStats().Writes > wr0 {
 				w.fails = append(w.fails, fmt.Sprintf("fd-touched-after-close|operations on the closed connection issued system calls on descriptor %d: %v", fdnum, vsys.BadFDCalls()[before:]))
 			}
-			if c.origin != "udp" {
+			if c.origin != "udp" && c.origin != "udp-dial" {
 				for _, o := range vsys.OpenFDs() {
 					if strings.HasPrefix(o, fmt.Sprintf("%d:sock", fdnum)) {
 						w.fails = append(w.fails, fmt.Sprintf("fd-leak|the connection is closed but descriptor %d is still open", fdnum))
@@ -561,6 +587,27 @@ func build(tier string) []*vkit.Scenario {
 				}
 			}
 		}
+		// a connection that is still being registered when it is ended
+		for _, o := range []string{"add-racing", "accept-racing"} {
+			for _, cs := range [][]string{{"stop"}, {"close"}, {"e1"}, {"close", "stop"}} {
+				if len(cs) == 2 && !thorough && m != ekit.LT {
+					continue
+				}
+				c := cfg{mode: m, origin: o, causes: cs, p: 2}
+				if thorough {
+					c.p = 3
+				}
+				add(c.name(), body(c), c.p, 0)
+			}
+		}
+		// a datagram socket that reads for itself
+		for _, cs := range [][]string{{"close"}, {"e1"}, {"rdeadline"}, {"stop"}, {"close", "e1"}} {
+			c := cfg{mode: m, origin: "udp-dial", causes: cs, p: 2}
+			if thorough {
+				c.p = 3
+			}
+			add(c.name(), body(c), c.p, 0)
+		}
 		if m == ekit.ET {
 			// asynchronous read: a peer shutdown that arrives with, or while, input is handled by a
 			// read task; alone and racing a local close
@@ -606,7 +653,7 @@ func main() {
 	defer ekit.CleanupFiles()
 	vkit.Main(&vkit.Spec{
 		Property: "C03", Level: "model_checking",
-		Rule: "one scenario = epoll mode x origin (AddConn, accepted, UDP session, async dial with outcome connected/refused/never/immediate and optional timeout) x 1-3 close causes raised concurrently (Close x2, CloseWithError x2, peer FIN, peer FIN behind input that is being handled, also with asynchronous reading on three executors, peer RST + write, overflow, read/write deadline on virtual time, Engine.Stop); every interleaving within the preemption bound; non-trivial = the connection was closed / the dial callback ran",
+		Rule: "one scenario = epoll mode x origin (AddConn, accepted, either of them still being registered when the causes are raised, UDP session, UDP socket that reads for itself, async dial with outcome connected/refused/never/immediate and optional timeout) x 1-3 close causes raised concurrently (Close x2, CloseWithError x2, peer FIN, peer FIN behind input that is being handled, also with asynchronous reading on three executors, peer RST + write, overflow, read/write deadline on virtual time, Engine.Stop); every interleaving within the preemption bound; non-trivial = the connection was closed / the dial callback ran",
 		Assumptions: []string{
 			"'the reported error is the first cause' is required when a closing call returned before any other cause was raised; otherwise the error must be one of the raised causes",
 			"fatal I/O errors come from a peer reset (read: ECONNRESET, write: EPIPE); a reset seen through epoll is reported as EOF by nbio and accepted as such",
